@@ -44,7 +44,10 @@ def real_canon(dump: Dict[str, Any]) -> Dict[str, Any]:
 
 
 def strip(p: Dict[str, Any]) -> Dict[str, Any]:
-    return {"mods": p["mods"], "priv": p["priv"]}
+    out = {"mods": p["mods"], "priv": p["priv"]}
+    if p.get("entries"):
+        out["entries"] = p["entries"]          # entry orders for PyBind (projects with import cycles)
+    return out
 
 
 def explore(ctx: Ctx, projs: List[Dict[str, Any]], record_states: bool = False, liveness: bool = False,
